@@ -25,10 +25,12 @@ package store
 //@             ==> (exists i int :: 0 <= i && i < len(alerts) && fpA(alerts[i]) == f && alerts[i].UpdatedAt == old(a.alerts[f].UpdatedAt))
 //@   ensures [modified-survive] forall f model.Fingerprint :: old(f in a.alerts)
 //@             && (forall i int :: 0 <= i && i < len(alerts) && fpA(alerts[i]) == f ==> alerts[i].UpdatedAt != old(a.alerts[f].UpdatedAt)) ==> f in a.alerts
+//@   ensures [unmodified-are-deleted] forall i int :: 0 <= i && i < len(alerts) && old(fpA(alerts[i]) in a.alerts) && alerts[i].UpdatedAt == old(a.alerts[fpA(alerts[i])].UpdatedAt) ==> !(fpA(alerts[i]) in a.alerts)
 //@   ensures [destroyed] a.destroyed == (old(a.destroyed) || (destroyIfEmpty && len(a.alerts) == 0))
 //@   ensures [result] result == nil
 //@   ensures [destroyed-store-is-empty] old(deadEmpty(a)) ==> deadEmpty(a)
 //@   loop 1 invariant rangeindex < len(alerts) && a.destroyed == old(a.destroyed) && (old(len(a.alerts)) == 0 ==> len(a.alerts) == 0)
+//@   loop 1 invariant forall i int :: 0 <= i && i <= rangeindex && old(fpA(alerts[i]) in a.alerts) && alerts[i].UpdatedAt == old(a.alerts[fpA(alerts[i])].UpdatedAt) ==> !(fpA(alerts[i]) in a.alerts)
 //@   loop 1 invariant forall f model.Fingerprint :: f in a.alerts ==> old(f in a.alerts) && a.alerts[f] == old(a.alerts[f])
 //@   loop 1 invariant forall f model.Fingerprint :: old(f in a.alerts) && !(f in a.alerts)
 //@             ==> (exists i int :: 0 <= i && i <= rangeindex && fpA(alerts[i]) == f && alerts[i].UpdatedAt == old(a.alerts[f].UpdatedAt))
@@ -44,6 +46,11 @@ package store
 //@   ensures [kept] forall f model.Fingerprint :: f in a.alerts ==> old(f in a.alerts) && a.alerts[f] == old(a.alerts[f])
 //@   ensures [only-resolved] forall f model.Fingerprint :: old(f in a.alerts) && !(f in a.alerts) ==> resolvedAt(old(a.alerts[f]), clock())
 //@   ensures [reported] forall i int :: 0 <= i && i < len(deleted) ==> deleted[i] != nil && resolvedAt(deleted[i], clock())
+//@   ensures [every-collected-alert-is-reported] forall f model.Fingerprint :: old(f in a.alerts) && !(f in a.alerts) ==> old(a.alerts[f]) in elems(deleted)
+//@   ensures [resolved-at-entry-are-collected] forall f model.Fingerprint :: old(f in a.alerts) && resolvedAt(old(a.alerts[f]), old(clock())) ==> !(f in a.alerts)
+//@   loop 1 invariant forall f model.Fingerprint :: old(f in a.alerts) && !(f in a.alerts) ==> old(a.alerts[f]) in elems(deleted)
+//@   loop 1 invariant forall f model.Fingerprint :: old(f in a.alerts) && (f in visited) && resolvedAt(old(a.alerts[f]), old(clock())) ==> !(f in a.alerts)
+//@   loop 1 invariant clock() >= old(clock())
 //@   loop 1 invariant forall f model.Fingerprint :: f in a.alerts ==> old(f in a.alerts) && a.alerts[f] == old(a.alerts[f])
 //@   loop 1 invariant forall f model.Fingerprint :: old(f in a.alerts) && !(f in a.alerts) ==> resolvedAt(old(a.alerts[f]), clock())
 //@   loop 1 invariant forall i int :: 0 <= i && i < len(deleted) ==> deleted[i] != nil && resolvedAt(deleted[i], clock())
